@@ -120,6 +120,14 @@ def gen_cases(rng, tier):
                   "p_resume_now": rng.choice([0.0, 0.3, 0.6]), "odd_fetch": rng.choice([0.0, 0.1]), "bad": 0.0},
         }
     yield from gen_loop_cases(rng, tier)
+    # a worker whose clock is coarse: several consecutive reports carry the same time stamp (monitor only)
+    for _ in range(16 if tier == "quick" else 200):
+        yield {
+            "ctor": {"delete_checkpoints": rng.random() < 0.3, "delayed_stop": rng.random() < 0.3, "coarse_clock": rng.choice([2, 3, 5, 1000])},
+            "seed": rng.randrange(10 ** 9), "steps": rng.choice([30, 60, 100]), "n_workers": rng.randint(1, 4),
+            "p": {"p_continue": rng.choice([0.5, 0.6, 0.75]), "p_pause": rng.choice([0.15, 0.28]), "p_window": rng.choice([0.0, 0.3]),
+                  "direct_cmd": 0.0, "bad": 0.0, "stop_all": 0.5},
+        }
     # the poll stream over the REAL LocalBackend (files, marker files, real worker processes); appended last so that the
     # cases above stay the same for a given seed
     for _ in range(24 if tier == "quick" else 300):
@@ -147,6 +155,10 @@ def gen_loop_cases(rng, tier):
             continue  # mostly pause-and-resume schedulers
         spec["stream"] = "loop"
         spec["inject"] = None
+        if k % 2 == 1:
+            # the results carry the worker's report counter, which restarts with every run of a trial
+            spec["backend_params"]["worker_iter"] = True
+            spec["cb_store"] = True
         k += 1
         yield spec
 
@@ -334,6 +346,11 @@ def run_impl(spec):
     t = poll.run_scenario(spec)
     mon, hidden = poll_monitor(t["events"])
     hist = dict(t["hist"])
+    if spec.get("ctor", {}).get("coarse_clock", 1) > 1:
+        # worker time stamps shared by consecutive reports: the model's stamps are an emission counter, so these cases are
+        # judged by the monitor alone (per trial and run: delivered = gap-free prefix of reported, each once, in order)
+        hist["coarse-clock-cases"] = 1
+        t["lines"] = []
     return {"lines": t["lines"], "monitor": mon,
             "meta": {"hist": hist, "resumes": hist.get("resume-ok", 0) + (1 if "ops" in spec else 0), "hidden": hidden}}
 
